@@ -25,6 +25,7 @@ Section NoLaws.
 
   (* mulTm(X, Y) = mulmm(X^T, Y) *)
   Theorem mulTm_as_mulmm c_r row col X Y bt b0 b1 :
+    U32 c_r -> U32 row -> U32 col ->
     length X = c_r * row -> length Y = c_r * col ->
     length (cells bt) = row * c_r -> length (cells b0) = row * col -> length (cells b1) = row * col ->
     exists xt z1 z2,
@@ -33,10 +34,10 @@ Section NoLaws.
       mulmm T zero add mul row c_r col (cells xt) Y b1 = Ok z2 /\
       cells z1 = cells z2.
   Proof.
-    intros HX HY Ht H0 H1.
-    destruct (T2_ok T zero c_r row X bt HX Ht) as (xt & Hxt & _ & Hlt & Hvt).
-    destruct (mulTm_ok T zero add mul c_r row col X Y HX HY b0 H0) as (z1 & Hz1 & _ & Hl1 & Hv1).
-    destruct (mulmm_ok T zero add mul row c_r col (cells xt) Y Hlt HY b1 H1) as (z2 & Hz2 & _ & Hl2 & Hv2).
+    intros Uk Ur Uc HX HY Ht H0 H1.
+    destruct (T2_ok T zero c_r row X bt Uk Ur HX Ht) as (xt & Hxt & _ & Hlt & Hvt).
+    destruct (mulTm_ok T zero add mul c_r row col X Y HX HY Ur Uc b0 H0) as (z1 & Hz1 & _ & Hl1 & Hv1).
+    destruct (mulmm_ok T zero add mul row c_r col (cells xt) Y Hlt HY Ur Uc b1 H1) as (z2 & Hz2 & _ & Hl2 & Hv2).
     exists xt, z1, z2. repeat (split; [assumption|]).
     apply (mat_ext T zero row col); [assumption|assumption|].
     intros i j Hi Hj. rewrite Hv1, Hv2 by assumption.
@@ -45,6 +46,7 @@ Section NoLaws.
 
   (* mulmT(X, Y) = mulmm(X, Y^T) *)
   Theorem mulmT_as_mulmm row col c_r X Y bt b0 b1 :
+    U32 row -> U32 col -> U32 c_r ->
     length X = row * c_r -> length Y = col * c_r ->
     length (cells bt) = c_r * col -> length (cells b0) = row * col -> length (cells b1) = row * col ->
     exists yt z1 z2,
@@ -53,10 +55,10 @@ Section NoLaws.
       mulmm T zero add mul row c_r col X (cells yt) b1 = Ok z2 /\
       cells z1 = cells z2.
   Proof.
-    intros HX HY Ht H0 H1.
-    destruct (T2_ok T zero col c_r Y bt HY Ht) as (yt & Hyt & _ & Hlt & Hvt).
-    destruct (mulmT_ok T zero add mul row col c_r X Y HX HY b0 H0) as (z1 & Hz1 & _ & Hl1 & Hv1).
-    destruct (mulmm_ok T zero add mul row c_r col X (cells yt) HX Hlt b1 H1) as (z2 & Hz2 & _ & Hl2 & Hv2).
+    intros Ur Uc Uk HX HY Ht H0 H1.
+    destruct (T2_ok T zero col c_r Y bt Uc Uk HY Ht) as (yt & Hyt & _ & Hlt & Hvt).
+    destruct (mulmT_ok T zero add mul row col c_r X Y HX HY Ur Uc Uk b0 H0) as (z1 & Hz1 & _ & Hl1 & Hv1).
+    destruct (mulmm_ok T zero add mul row c_r col X (cells yt) HX Hlt Ur Uc b1 H1) as (z2 & Hz2 & _ & Hl2 & Hv2).
     exists yt, z1, z2. repeat (split; [assumption|]).
     apply (mat_ext T zero row col); [assumption|assumption|].
     intros i j Hi Hj. rewrite Hv1, Hv2 by assumption.
@@ -65,6 +67,7 @@ Section NoLaws.
 
   (* mulTT(X, Y) = mulmm(X^T, Y^T) *)
   Theorem mulTT_as_mulmm row c_r col X Y btx bty b0 b1 :
+    U32 row -> U32 c_r -> U32 col ->
     length X = c_r * row -> length Y = col * c_r ->
     length (cells btx) = row * c_r -> length (cells bty) = c_r * col ->
     length (cells b0) = row * col -> length (cells b1) = row * col ->
@@ -74,11 +77,11 @@ Section NoLaws.
       mulmm T zero add mul row c_r col (cells xt) (cells yt) b1 = Ok z2 /\
       cells z1 = cells z2.
   Proof.
-    intros HX HY Htx Hty H0 H1.
-    destruct (T2_ok T zero c_r row X btx HX Htx) as (xt & Hxt & _ & Hlx & Hvx).
-    destruct (T2_ok T zero col c_r Y bty HY Hty) as (yt & Hyt & _ & Hly & Hvy).
-    destruct (mulTT_ok T zero add mul row c_r col X Y HX HY b0 H0) as (z1 & Hz1 & _ & Hl1 & Hv1).
-    destruct (mulmm_ok T zero add mul row c_r col (cells xt) (cells yt) Hlx Hly b1 H1)
+    intros Ur Uk Uc HX HY Htx Hty H0 H1.
+    destruct (T2_ok T zero c_r row X btx Uk Ur HX Htx) as (xt & Hxt & _ & Hlx & Hvx).
+    destruct (T2_ok T zero col c_r Y bty Uc Uk HY Hty) as (yt & Hyt & _ & Hly & Hvy).
+    destruct (mulTT_ok T zero add mul row c_r col X Y HX HY Ur Uk Uc b0 H0) as (z1 & Hz1 & _ & Hl1 & Hv1).
+    destruct (mulmm_ok T zero add mul row c_r col (cells xt) (cells yt) Hlx Hly Ur Uc b1 H1)
       as (z2 & Hz2 & _ & Hl2 & Hv2).
     exists xt, yt, z1, z2. repeat (split; [assumption|]).
     apply (mat_ext T zero row col); [assumption|assumption|].
@@ -131,6 +134,7 @@ Section CommRing.
   (* (X Y)^T = Y^T X^T :  mulTT(X, Y) is the transpose (T2) of mulmm(Y, X)
      X is c_r x row, Y is col x c_r *)
   Theorem mul_transpose row c_r col X Y b0 b1 b2 :
+    U32 row -> U32 c_r -> U32 col ->
     length X = c_r * row -> length Y = col * c_r ->
     length (cells b0) = row * col -> length (cells b1) = col * row -> length (cells b2) = row * col ->
     exists z1 p z2,
@@ -139,10 +143,10 @@ Section CommRing.
       T2 T col row (cells p) b2 = Ok z2 /\
       cells z1 = cells z2.
   Proof.
-    intros HX HY H0 H1 H2.
-    destruct (mulTT_ok T zero add mul row c_r col X Y HX HY b0 H0) as (z1 & Hz1 & _ & Hl1 & Hv1).
-    destruct (mulmm_ok T zero add mul col c_r row Y X HY HX b1 H1) as (p & Hp & _ & Hlp & Hvp).
-    destruct (T2_ok T zero col row (cells p) b2 Hlp H2) as (z2 & Hz2 & _ & Hl2 & Hv2).
+    intros Ur Uk Uc HX HY H0 H1 H2.
+    destruct (mulTT_ok T zero add mul row c_r col X Y HX HY Ur Uk Uc b0 H0) as (z1 & Hz1 & _ & Hl1 & Hv1).
+    destruct (mulmm_ok T zero add mul col c_r row Y X HY HX Uc Ur b1 H1) as (p & Hp & _ & Hlp & Hvp).
+    destruct (T2_ok T zero col row (cells p) b2 Uc Ur Hlp H2) as (z2 & Hz2 & _ & Hl2 & Hv2).
     exists z1, p, z2. repeat (split; [assumption|]).
     apply (mat_ext T zero row col); [assumption|assumption|].
     intros i j Hi Hj. rewrite Hv1, Hv2, Hvp by assumption.
@@ -151,13 +155,13 @@ Section CommRing.
 
   (* eye1 is a left unit: I_n Y = Y *)
   Theorem mulmm_eye_l n col Y be b0 :
-    length Y = n * col -> length (cells be) = n * n -> length (cells b0) = n * col ->
+    U32 n -> U32 col -> length Y = n * col -> length (cells be) = n * n -> length (cells b0) = n * col ->
     exists e z, eye1 T zero one n be = Ok e /\
                 mulmm T zero add mul n n col (cells e) Y b0 = Ok z /\ cells z = Y.
   Proof.
-    intros HY He H0.
+    intros Un Uc HY He H0.
     destruct (eye1_ok T zero one n be He) as (e & Hee & _ & Hle & Hve).
-    destruct (mulmm_ok T zero add mul n n col (cells e) Y Hle HY b0 H0) as (z & Hz & _ & Hlz & Hvz).
+    destruct (mulmm_ok T zero add mul n n col (cells e) Y Hle HY Un Uc b0 H0) as (z & Hz & _ & Hlz & Hvz).
     exists e, z. repeat (split; [assumption|]).
     apply (mat_ext T zero n col); [assumption|assumption|].
     intros i j Hi Hj. rewrite Hvz by assumption.
@@ -168,13 +172,13 @@ Section CommRing.
 
   (* eye1 is a right unit: X I_n = X *)
   Theorem mulmm_eye_r row n X be b0 :
-    length X = row * n -> length (cells be) = n * n -> length (cells b0) = row * n ->
+    U32 row -> U32 n -> length X = row * n -> length (cells be) = n * n -> length (cells b0) = row * n ->
     exists e z, eye1 T zero one n be = Ok e /\
                 mulmm T zero add mul row n n X (cells e) b0 = Ok z /\ cells z = X.
   Proof.
-    intros HX He H0.
+    intros Ur Un HX He H0.
     destruct (eye1_ok T zero one n be He) as (e & Hee & _ & Hle & Hve).
-    destruct (mulmm_ok T zero add mul row n n X (cells e) HX Hle b0 H0) as (z & Hz & _ & Hlz & Hvz).
+    destruct (mulmm_ok T zero add mul row n n X (cells e) HX Hle Ur Un b0 H0) as (z & Hz & _ & Hlz & Hvz).
     exists e, z. repeat (split; [assumption|]).
     apply (mat_ext T zero row n); [assumption|assumption|].
     intros i j Hi Hj. rewrite Hvz by assumption.
@@ -200,14 +204,14 @@ Proof.
 Qed.
 
 Theorem mulmm_R_sum_f_R0 row k col (X Y : list R) (b0 : buf R) :
-  length X = row * S k -> length Y = S k * col -> length (cells b0) = row * col ->
+  U32 row -> U32 col -> length X = row * S k -> length Y = S k * col -> length (cells b0) = row * col ->
   exists b, mulmm R 0%R Rplus Rmult row (S k) col X Y b0 = Ok b /\
     forall i j, i < row -> j < col ->
       ent R 0%R col (cells b) i j =
       sum_f_R0 (fun t => (ent R 0%R (S k) X i t * ent R 0%R col Y t j)%R) k.
 Proof.
-  intros HX HY H0.
-  destruct (mulmm_ok R 0%R Rplus Rmult row (S k) col X Y HX HY b0 H0) as (b & Hb & _ & _ & Hv).
+  intros Ur Uc HX HY H0.
+  destruct (mulmm_ok R 0%R Rplus Rmult row (S k) col X Y HX HY Ur Uc b0 H0) as (b & Hb & _ & _ & Hv).
   exists b. split; [exact Hb|]. intros i j Hi Hj.
   unfold ent. rewrite Hv by assumption. apply dotsum_sum_f_R0.
 Qed.
